@@ -9,6 +9,7 @@ func init() {
 		checkDecryptHelper(c, "C14")
 		// receivers try every installed key; keys come from the keyring
 		checkKeyUse(c)
+		checkRemoveExact(c)
 	})
 	register("C16", func(c *Ctx) {
 		c.Assume("round-trip of the header codec for every payload and every stream fragmentation is a value property (bufio.Reader.Peek contract trusted)")
